@@ -12,13 +12,15 @@ Model of the scalar parsers and validators of oslo.utils (property C14):
 
 Text is `List Char`.  The CPython primitives the code calls are re-implemented here and are the
 trusted part: `str.strip()`, `str.lower()`, `str.replace(x, '')`, `str.strip('{}')`, `len`,
-`int(str)` / `int(str, 16)` (PyLong_FromString: surrounding whitespace, sign, `0x` prefix for base 16,
-single underscores between digits, Unicode decimal digits, the int/str digit limit) and `str(int)`.
+`int(str)` / `int(str, 16)` (`_PyUnicode_TransformDecimalAndSpaceToASCII` then PyLong_FromString:
+surrounding whitespace, sign, `0x` prefix for base 16, single underscores between digits, Unicode
+decimal digits, the int/str digit limit), `str(int)`, `uuid.UUID(hex=…)`, `UUID.__str__`.
 
 Character domain on which the correspondence is claimed: ASCII, the `str.isspace()` code points
 (Gen.spaceCodes) and the Unicode decimal digits (category Nd, Gen.ndRuns).  Outside it the model's
 `lowerChar` is the identity whereas Python's `str.lower()` is not (1407 cased non-ASCII characters) —
-those characters are excluded from the correspondence and exercised by the implementation-only search.
+those characters are excluded from the correspondence and exercised by the implementation-only
+search.  (`int()`, `strip()`, `replace`, `len` are modelled for every character.)
 
 A Python value is a `PyVal`: a `str`, a `bool`, an `int`, or any other object, of which the model only
 knows what the runtime says about it: its `str()` text and the outcome of `int(obj)`.
